@@ -3,7 +3,28 @@
   `parseFrame` / `parseCpf` (PycommModel/Encap.lean) are the independent strict parsers.
 -/
 import PycommModel.Encap
+import PycommProofs.ENParse
 namespace Pycomm.Encap
+open Pycomm.EN
+
+theorem command_lt (r : Req) : r.command < 256 ^ 2 := by
+  cases r <;> simp [Req.command, CMD_REGISTER, CMD_UNREGISTER, CMD_LIST_IDENTITY, CMD_SEND_RR, CMD_SEND_UNIT]
+
+/-- a successfully built request, parsed: the one lemma behind all the frame properties -/
+theorem parse_built (r : Req) (ctx : Ctx) (f : Bytes) (hc : ctx.context.length = 8)
+    (h : buildRequest r ctx = .ok f) :
+    ∃ s common, ctx.session = some s ∧ commonOf r ctx common ∧ f.length = 24 + common.length ∧
+      parseFrame f = some { command := r.command, session := s, status := 0, context := ctx.context,
+                            options := ctx.option, body := common } := by
+  obtain ⟨s, common, hs, hs32, ho32, hl, hco, rfl⟩ := buildRequest_nf r ctx f h
+  refine ⟨s, common, hs, hco, ?_, ?_⟩
+  · simp only [List.length_append, leBytes_length, hc, List.length_cons, List.length_nil]
+    omega
+  · rw [parseFrame_segments _ _ _ _ _ _ _ (leBytes_length _ _) (leBytes_length _ _) (leBytes_length _ _)
+      rfl hc (leBytes_length _ _) (leVal_leBytes 2 _ (by simpa using hl))]
+    rw [leVal_leBytes 2 _ (command_lt r), leVal_leBytes 4 s (by simpa using hs32),
+      leVal_leBytes 4 ctx.option (by simpa using ho32)]
+    rfl
 
 -- PROPERTY THEOREMS
 
@@ -13,7 +34,16 @@ theorem parseFrame_sound (bs : Bytes) (fr : Frame) (h : parseFrame bs = some fr)
     bs.length = 24 + fr.body.length ∧ leVal ((bs.drop 2).take 2) = fr.body.length ∧
     fr.command = leVal (bs.take 2) ∧ fr.session = leVal ((bs.drop 4).take 4) ∧
     fr.status = leVal ((bs.drop 8).take 4) ∧ fr.options = leVal ((bs.drop 20).take 4) ∧ fr.body = bs.drop 24 := by
-  sorry
+  unfold parseFrame at h
+  split at h
+  · cases h
+  · dsimp only at h
+    split at h
+    · cases h
+    · rename_i h1 h2
+      simp only [Option.some.injEq] at h
+      subst h
+      refine ⟨?_, ?_, rfl, rfl, rfl, rfl, rfl⟩ <;> simp only [List.length_drop] <;> omega
 
 /-- acceptance by the common-packet parser means: interface handle 0, exactly two items, item lengths equal to
     their contents, and one of the two legal shapes -/
@@ -25,7 +55,20 @@ theorem parseCpf_sound (body : Bytes) (c : Cpf) (h : parseCpf body = some c) :
      | .connected cid seq m => ∃ cidb seqb, cidb.length = 4 ∧ seqb.length = 2 ∧ leVal cidb = cid ∧ leVal seqb = seq ∧
          body.drop 8 = leBytes 2 ITEM_CONNECTION ++ leBytes 2 4 ++ cidb ++ leBytes 2 ITEM_CONNECTED_DATA ++
            leBytes 2 (m.length + 2) ++ seqb ++ m ∧ m.length + 2 < 65536) := by
-  sorry
+  obtain ⟨aT, dT, aD, dD, h1, h2, hd, hb, hc⟩ := parseCpf_some body c h
+  refine ⟨h1, h2, ?_⟩
+  rcases hc with ⟨rfl, ha, rfl, rfl⟩ | ⟨rfl, ha, rfl, hd2, rfl⟩
+  · have : aD = [] := List.eq_nil_of_length_eq_zero ha
+    subst this
+    refine ⟨?_, hd⟩
+    rw [hb]
+    simp
+  · refine ⟨aD, dD.take 2, ha, ?_, rfl, rfl, ?_, ?_⟩
+    · simp only [List.length_take]; omega
+    · have hl : (dD.drop 2).length + 2 = dD.length := by simp only [List.length_drop]; omega
+      rw [hb, ha, hl]
+      simp
+    · simp only [List.length_drop]; omega
 
 /-- every request the driver builds — whatever the payload length, session handle, context and options —
     is exactly one frame: the strict parser accepts it, the length field counts the body, the command is the
@@ -34,13 +77,16 @@ theorem frame_wf (r : Req) (ctx : Ctx) (f : Bytes) (hc : ctx.context.length = 8)
     (h : buildRequest r ctx = .ok f) :
     ∃ fr, parseFrame f = some fr ∧ fr.command = r.command ∧ ctx.session = some fr.session ∧ fr.status = 0 ∧
       fr.options = ctx.option ∧ fr.context = ctx.context ∧ f.length = 24 + fr.body.length := by
-  sorry
+  obtain ⟨s, common, hs, _, hlen, hp⟩ := parse_built r ctx f hc h
+  exact ⟨_, hp, rfl, hs, rfl, rfl, rfl, hlen⟩
 
 /-- SendRRData bodies: null address item + unconnected data item carrying exactly the message -/
 theorem cpf_rr_wf (m : Bytes) (ctx : Ctx) (f : Bytes) (hc : ctx.context.length = 8)
     (h : buildRequest (.sendRR m) ctx = .ok f) :
     ∃ fr, parseFrame f = some fr ∧ parseCpf fr.body = some (.unconnected m) := by
-  sorry
+  obtain ⟨s, common, hs, hco, hlen, hp⟩ := parse_built _ ctx f hc h
+  obtain ⟨hm, rfl⟩ := hco
+  exact ⟨_, hp, parseCpf_unconnected m hm⟩
 
 /-- SendUnitData bodies: connection address item holding the target's connection id + connected data item
     that begins with the sequence count and carries exactly the message -/
@@ -48,24 +94,37 @@ theorem cpf_unit_wf (seq : Nat) (m : Bytes) (ctx : Ctx) (cid f : Bytes) (hc : ct
     (hcid : ctx.targetCid = some cid) (hl : cid.length = 4)
     (h : buildRequest (.sendUnit seq m) ctx = .ok f) :
     ∃ fr, parseFrame f = some fr ∧ parseCpf fr.body = some (.connected (leVal cid) seq m) := by
-  sorry
+  obtain ⟨s, common, hs, hco, hlen, hp⟩ := parse_built _ ctx f hc h
+  obtain ⟨hseq, hm, _, rfl⟩ := hco
+  refine ⟨_, hp, ?_⟩
+  rw [hcid]
+  exact parseCpf_connected cid m seq hl hseq hm
 
 /-- RegisterSession: protocol version 1, no option flags, handle 0 before registration -/
 theorem register_frame (ctx : Ctx) (f : Bytes) (hc : ctx.context.length = 8) (hs : ctx.session = some 0)
     (h : buildRequest (.registerSession [1, 0] [0, 0]) ctx = .ok f) :
     ∃ fr, parseFrame f = some fr ∧ fr.command = CMD_REGISTER ∧ fr.session = 0 ∧ fr.body = [1, 0, 0, 0] := by
-  sorry
+  obtain ⟨s, common, hs', hco, hlen, hp⟩ := parse_built _ ctx f hc h
+  rw [hs] at hs'
+  cases hs'
+  cases hco
+  exact ⟨_, hp, rfl, rfl, rfl⟩
 
 /-- UnRegisterSession and ListIdentity have no body -/
 theorem bodyless_frames (ctx : Ctx) (f : Bytes) (hc : ctx.context.length = 8) (r : Req)
     (hr : r = .unregisterSession ∨ r = .listIdentity) (h : buildRequest r ctx = .ok f) :
     ∃ fr, parseFrame f = some fr ∧ fr.body = [] ∧ f.length = 24 := by
-  sorry
+  obtain ⟨s, common, hs', hco, hlen, hp⟩ := parse_built _ ctx f hc h
+  rcases hr with rfl | rfl
+  · cases hco
+    exact ⟨_, hp, rfl, hlen⟩
+  · cases hco
+    exact ⟨_, hp, rfl, hlen⟩
 
 /-- building fails (with a library exception) exactly when a length/handle does not fit its field:
     it never produces a frame with a truncated length field -/
 theorem build_fails_only_on_overflow (r : Req) (ctx : Ctx) (e : Exn) (h : buildRequest r ctx = .error e) :
     e = .comm ∨ e = .data := by
-  sorry
+  exact buildRequest_err r ctx e h
 
 end Pycomm.Encap
